@@ -157,6 +157,7 @@ def run_property(P, tier, seed, replay=None):
 
     # ---------- 2b. escalation: the source differs from the tree this development was last validated against (pinned_source.json)
     # and the ordinary run found nothing - search further, with fresh generator seeds, before saying the property held
+    Prep = P
     changed = build.source_changed()
     if os.environ.get("VERIF_FORCE_ESCALATE"): changed = changed | {"(forced by VERIF_FORCE_ESCALATE)"}
     escal = {"source_differs_from_pinned": sorted(changed), "extra_rounds": 0, "extra_cases": 0}
@@ -172,7 +173,7 @@ def run_property(P, tier, seed, replay=None):
             ncases += len(extra_cases)
             escal["extra_rounds"] += 1; escal["extra_cases"] += len(extra_cases)
             if oracle_fail or disagreements:
-                P = P2
+                Prep = P2      # the object whose generator produced the failing case describes it
                 break
 
     # every finding listed in known_findings.json for this property is reported on every run, observed or not
@@ -190,16 +191,16 @@ def run_property(P, tier, seed, replay=None):
         # cases of an escalation round carry the round in their id: the replay regenerates them from that round's seed
         return seed * 7919 + int(c.cid[1]) if c.cid[:1] == "x" and c.cid[1:2].isdigit() else seed
     for (c, i, m, detail) in oracle_fail[:10]:
-        c2, i2 = P.shrink(c, i) if hasattr(P, "shrink") else (c, i)
+        c2, i2 = Prep.shrink(c, i) if hasattr(Prep, "shrink") else (c, i)
         rep.violation({"generator": c.gen, "seed": cseed(c), "impl-output": i2, "model-output": m,
                        "spec-verdict": "impl violates the property: " + detail,
-                       "input": P.show(c2)}, [c2.line])
+                       "input": Prep.show(c2)}, [c2.line])
     if disagreements and not oracle_fail:
         # impl and model differ but the impl's own output satisfies the executable spec on every case of this run:
         # the correspondence is broken, no failing input was found
         c, i, m, d = disagreements[0]
         rep.violation({"generator": c.gen, "seed": cseed(c), "impl-output": i, "model-output": m,
-                       "unchecked": "corr:%s:%s" % (P.prop, d), "input": P.show(c),
+                       "unchecked": "corr:%s:%s" % (P.prop, d), "input": Prep.show(c),
                        "note": "%d disagreeing cases; spec oracle found no violation in %d impl outputs" % (len(disagreements), ncases)},
                       [x[0].line for x in disagreements[:20]], no_input=True)
     if not proof_ok and not oracle_fail and not (disagreements):
